@@ -853,6 +853,9 @@ def run(ctx, res):
     SCRATCH_ROOT.mkdir(parents=True, exist_ok=True)
     run_params(ctx, res)
     run_config(ctx, res)
+    # representation- and history-robustness of the public functions (harness/apirobust.py)
+    from .. import apirobust_cases as _AC
+    _AC.c19(res, np.random.default_rng(ctx["seed"] + 4242), ctx)
 
 
 def replay(data):
